@@ -81,11 +81,13 @@ def rows_of(env, df):
 
 # ------------------------------------------------------------- the swept function
 def payload(base, a, b):
-    return base + 100 * a + b
+    # stays an int for float-valued coordinates (10.5, 20.5): payloads are solver ints
+    return base + int(100 * a) + int(2 * b)
 
 
-def make_fn(base, nvars, idim, log, with_t, with_res, with_w):
-    """fn(a, b[, t][, res][, w]) -> x | (x, y);  y has internal dimension 'w' (2 entries) when idim"""
+def make_fn(base, nvars, idim, log, with_t, with_res, with_w, aslist=False):
+    """fn(a, b[, t][, res][, w]) -> x | (x, y);  y has internal dimension 'w' (2 entries) when idim;
+    aslist: the two outputs come back as a list instead of a tuple"""
 
     def fn(a, b=0, t=0, res=0, w=None):
         log.append((a, b))
@@ -93,7 +95,7 @@ def make_fn(base, nvars, idim, log, with_t, with_res, with_w):
         if nvars == 1:
             return [x, x + 7] if idim else x
         y = [x + 1, x + 2 + t] if idim else x + 1
-        return x, y
+        return [x, y] if aslist else (x, y)
 
     return fn
 
@@ -211,9 +213,10 @@ def body_grid_ds(E, entry, n1, n2, nvars, idim, sp, const_is_dim, base, t, j1, j
 
 # ------------------------------------------------------------- cases -> Dataset
 CASES = [(12, 20), (10, 21), (11, 20), (10, 20)]
+CASES_MIXED = [(12, 20), (10.5, 21), (11, 20.5), (10.5, 20)]      # int and float values of one argument
 
 
-def body_case_ds(E, entry, k, dictsp, nvars, idim, sp, base, t, j1, j2, j3, shuf):
+def body_case_ds(E, entry, k, dictsp, nvars, idim, sp, base, t, j1, j2, j3, shuf, mixed=False):
     entry = concretize(entry, 0, 1)
     k = concretize(k, 1, 4)
     nvars = concretize(nvars, 1, 2)
@@ -222,7 +225,7 @@ def body_case_ds(E, entry, k, dictsp, nvars, idim, sp, base, t, j1, j2, j3, shuf
     js = [0, j1, j2, j3][:k]
     log = []
     fn = make_fn(base, nvars, idim, log, True, True, False)
-    pts = CASES[:k]
+    pts = (CASES_MIXED if mixed else CASES)[:k]
     cases = [{"a": a, "b": b} for a, b in pts] if cbool(dictsp) else list(pts)
     fn_args = None if cbool(dictsp) else ("a", "b")
     var_names = ["x", "y"][:nvars]
@@ -248,13 +251,13 @@ def body_case_ds(E, entry, k, dictsp, nvars, idim, sp, base, t, j1, j2, j3, shuf
 
 
 # ------------------------------------------------------------- DataFrame rows
-def body_df(E, entry, n, nvars, base, t, j1, j2, j3, j4, shuf):
+def body_df(E, entry, n, nvars, base, t, j1, j2, j3, j4, shuf, aslist=False):
     entry = concretize(entry, 0, 3)     # 0 combo_runner_to_df, 1 case_runner_to_df, 2 Runner.run_combos(to_df), 3 run_cases
     n = concretize(n, 1, 5)
     nvars = concretize(nvars, 1, 2)
     js = [0, j1, j2, j3, j4][:n]
     log = []
-    fn = make_fn(base, nvars, False, log, True, True, False)
+    fn = make_fn(base, nvars, False, log, True, True, False, aslist=cbool(aslist))
     var_names = ["x", "y"][:nvars]
     if n == 4:
         combos, pts = {"a": A[:2], "b": B[:2]}, [(a, b) for a in A[:2] for b in B[:2]]
@@ -433,6 +436,11 @@ CONDS = (
                   bounds="1-4 cases over (a, b) (tuple or dict spelling, unsorted), 1-2 variables, optional internal "
                          "dimension, five spellings; unrequested points must be missing; entry: 0 case_runner_to_ds "
                          "1 Runner.run_cases")
+    + [make_cond(_G, "case_ds_mixed", body_case_ds, "entry:int k:int dictsp:bool base:int t:int",
+                 ["0 <= entry <= 1 and 2 <= k <= 4"],
+                 fixed=dict(nvars=1, idim=False, sp=0, j1=0, j2=0, j3=0, shuf=False, mixed=True), timeout=300,
+                 bounds="2-4 cases whose values for one argument mix int and float: each coordinate is the sorted "
+                        "union of the values")]
     + [make_cond(_G, "case_ds_shuffled", body_case_ds,
                  "entry:int k:int dictsp:bool nvars:int idim:bool sp:int base:int t:int j1:int j2:int j3:int shuf:bool",
                  ["0 <= entry <= 1 and 2 <= k <= 4 and nvars == 2 and idim and sp == 0 and shuf and not dictsp",
@@ -445,6 +453,10 @@ CONDS = (
                   bounds="DataFrame form: 1-5 settings, 1-2 output columns, un-shuffled and every shuffle permutation; "
                          "each row must pair a setting with that setting's outputs; entry: 0 combo_runner_to_df "
                          "1 case_runner_to_df 2 Runner.run_combos(to_df) 3 Runner.run_cases(to_df)")
+    + [make_cond(_G, "df_list", body_df, "entry:int n:int base:int t:int",
+                 ["0 <= entry <= 3 and 1 <= n <= 3"], fixed=dict(nvars=2, j1=0, j2=0, j3=0, j4=0, shuf=False, aslist=True),
+                 timeout=200, bounds="DataFrame form, two output columns returned as a list [x, y] instead of a tuple "
+                                     "(accepted like the Dataset form): one column per output")]
     + [make_cond(_G, "auto_const", body_auto_const, "kind:int n1:int base:int", ["0 <= kind <= 1 and 1 <= n1 <= 2"],
                  timeout=120,
                  bounds="var_names=None, function returning a Dataset / DataArray with an un-labelled dimension named "
